@@ -71,7 +71,9 @@ impl AsyncFileSystem for AsyncPhysicalFS {
             self.get_path(path)
                 .read_dir()
                 .await?
-                .map(|entry| entry.unwrap().file_name().into_string().unwrap()),
+                // entries that cannot be read are skipped, names that are not valid UTF-8 are converted lossily
+                .filter_map(|entry| futures::future::ready(entry.ok()))
+                .map(|entry| entry.file_name().to_string_lossy().into_owned()),
         );
         Ok(entries)
     }
